@@ -666,6 +666,15 @@ class Engine:
                 return [(("ref", ("loc", loc[1], loc[2] + (("d", "Some"), ("f", "0", 0, "std::option::Option"))), True), None)]
             r_ = ("ref", ("loc", loc[1], loc[2] + (("d", "Some"), ("f", "0", 0, "std::option::Option"))), True)
             return [(r_, [(("isvar", cur, "None"), True)], [(loc, newv)]), (r_, [(("isvar", cur, "Some"), True)])]
+        if re.search(r"option::Option::<.*>::transpose$", nm) and args:
+            v = self.deref_val(path, args[0]) if args[0][0] == "ref" else args[0]
+            RES_, OPT_ = "std::result::Result", "std::option::Option"
+            if v[0] == "adt" and v[2] == "None":
+                return [(("adt", RES_, "Ok", (("adt", OPT_, "None", ()),)), None)]
+            if v[0] == "adt" and v[2] == "Some" and v[3] and v[3][0][0] == "adt" and v[3][0][2] == "Ok":
+                return [(("adt", RES_, "Ok", (("adt", OPT_, "Some", (v[3][0][3][0],)),)), None)]
+            if v[0] == "adt" and v[2] == "Some" and v[3] and v[3][0][0] == "adt" and v[3][0][2] == "Err":
+                return [(("adt", RES_, "Err", (v[3][0][3][0],)), None)]
         if re.search(r"mem::replace::<.*>$|mem::replace$", nm) and len(args) == 2 and args[0][0] == "ref":
             loc = args[0][1]
             old_v = self.read_loc(path, loc)
@@ -808,6 +817,12 @@ class Engine:
                     continue
                 self.write_loc(sp, self.loc_of_place(sp, t["dest"]), e[1], bb)
                 outs.append(go(t["target"], sp))
+            elif e and e[0] == "cut":
+                # a loop inside a helper the rules do not know by name: explored like a loop written in place (this path ran
+                # one iteration and ends at the back edge; the path that skips the loop goes on)
+                sp.events.append(("call", bb, name, tuple(args), None, t, self.fn.name, tuple(args), "inlined-iteration"))
+                sp.end = ("cut", bb)
+                outs.append((None, sp))
             elif e and e[0] in ("cut", "loop-limit", "stop"):
                 # a loop inside the callee: the result is opaque on this path
                 ret = ("app", name, tuple(args))
